@@ -105,6 +105,15 @@ def unit_single(which):
                 continue
             first = cbs[0][2][0]
             ctx.oblige('post.reply_parsed_by_parse_keywords', p, B(isinstance(first, VFunc) and first.qualname == 'parse_keywords'))
+            if which == 'get_info_single':
+                # the requested key is the only line start that opens a value: key_hints is the one-element list [key]
+                kws = ctx.models.glog(p, 'chained_kw')
+                idx = [i for i, c in enumerate(chained) if c[1] == 'addCallback'][0]
+                hints = kws[idx].get('key_hints') if idx < len(kws) else None
+                items = ex.list_items(p, hints) if isinstance(hints, VList) else None
+                ok = items is not None and len(items) == 1 and isinstance(items[0], VStr)
+                ctx.oblige('post.only_the_requested_key_may_open_a_value', p, zand(B(ok), items[0].t == key) if ok else B(False),
+                           clause='a multi-line value of a single requested key comes back with all its lines intact and in order')
             sel = cbs[-1][2][0]
             # apply the selecting callback to a symbolic result dict
             m = TMap(TStr(), TStr(), ordered=True).fresh('values')
